@@ -96,6 +96,14 @@ func (m Manifest) IsValid([]byte) error {
 		return e.Wrap(err)
 	}
 
+	if err := util.CheckIsValiders(nil, false, m.h); err != nil {
+		return e.Wrap(err)
+	}
+
+	if !m.h.Equal(m.generateHash()) {
+		return e.Errorf("hash does not match")
+	}
+
 	return nil
 }
 
